@@ -55,7 +55,8 @@ impl Serialize for MemoryLocation {
             MemoryLocation::StackOffset(i) => serializer.serialize_str(&format!(
                 "so{}{}",
                 if i < &0 { "-" } else { "+" },
-                i.abs()
+                // `abs()` overflows for i32::MIN
+                i.unsigned_abs()
             )),
         }
     }
@@ -76,12 +77,12 @@ impl Visitor<'_> for MemoryLocationVisitor {
     {
         if let Some(so) = v.strip_prefix("so") {
             let (sign, num) = so.split_at(1);
-            let num = num.parse::<i32>().map_err(de::Error::custom)?;
-            Ok(MemoryLocation::StackOffset(if sign == "-" {
-                -num
-            } else {
-                num
-            }))
+            // The magnitude of i32::MIN does not fit in an i32
+            let num = num.parse::<i64>().map_err(de::Error::custom)?;
+            let offset = if sign == "-" { -num } else { num };
+            Ok(MemoryLocation::StackOffset(
+                i32::try_from(offset).map_err(de::Error::custom)?,
+            ))
         } else if let Some(csr) = v.strip_prefix("csr+") {
             let csr = csr.parse::<u32>().map_err(de::Error::custom)?;
             Ok(MemoryLocation::CsrRegister(CsrImm::new(csr)))
